@@ -1280,6 +1280,38 @@ def run_module(spec, mod, repo, outdir):
             ok = False
             out.append('(* UNSUPPORTED constant %s: %s *)' % (c, e))
             meta.append({'name': c, 'status': 'unsupported', 'reason': str(e)})
+    # (additive) `enum_decls`: names of C++ enum types all of whose enumerators are translated, in declaration order;
+    # an enumerator without an explicit initialiser gets <previous value> + 1 (first: 0), as in C++.
+    for en in mod.get('enum_decls', []):
+        try:
+            docs = clang_dump(repo, mod['file'], en)
+            ed = None
+            for d in docs:
+                if d.get('kind') == 'EnumDecl' and d.get('name') == en and \
+                        any(c.get('kind') == 'EnumConstantDecl' for c in d.get('inner', [])):
+                    ed = d
+            if ed is None:
+                raise Unsupported('enum %s not found' % en)
+            prev = -1
+            for c in ed.get('inner', []):
+                if c.get('kind') != 'EnumConstantDecl':
+                    continue
+                m = re.search(r'"value": "(-?\d+)"', json.dumps(c))
+                if m:
+                    v = int(m.group(1))
+                elif c.get('inner'):
+                    raise Unsupported('enumerator %s::%s has an initialiser that clang did not evaluate' % (en, c['name']))
+                else:
+                    v = prev + 1
+                prev = v
+                out.append('Definition %s : Z := (%d)%%Z.' % (c['name'], v))
+                ctx.consts[c['name']] = c['name']
+                ctx.const_types[c['name']] = 'Z'
+            meta.append({'name': 'enum ' + en, 'status': 'ok'})
+        except Unsupported as e:
+            ok = False
+            out.append('(* UNSUPPORTED enum %s: %s *)' % (en, e))
+            meta.append({'name': 'enum ' + en, 'status': 'unsupported', 'reason': str(e)})
     out.append('')
     for f in fspecs:
         name = f['name']
